@@ -44,11 +44,18 @@ type InlineObjectsWithTypes struct {
 	objectsToInline *orderedmap.Map[ast.RefType, ast.Type]
 	// references being inlined: inlined objects can refer to each other, or to themselves
 	inlining map[ast.RefType]struct{}
+	// number of references inlined so far
+	inlined int
 }
+
+// maxInlinedObjects bounds the references this pass replaces by a copy of what
+// they designate: objects that refer to each other multiply these copies.
+const maxInlinedObjects = 100000
 
 func (pass *InlineObjectsWithTypes) Process(schemas []*ast.Schema) ([]*ast.Schema, error) {
 	pass.objectsToInline = orderedmap.New[ast.RefType, ast.Type]()
 	pass.inlining = make(map[ast.RefType]struct{})
+	pass.inlined = 0
 
 	for _, schema := range schemas {
 		schema.Objects.Iterate(func(_ string, object ast.Object) {
@@ -111,6 +118,11 @@ func (pass *InlineObjectsWithTypes) processRef(visitor *Visitor, schema *ast.Sch
 	}
 	pass.inlining[ref] = struct{}{}
 	defer delete(pass.inlining, ref)
+
+	pass.inlined++
+	if pass.inlined > maxInlinedObjects {
+		return ast.Type{}, fmt.Errorf("more than %d references to inline, the last one being '%s': the objects inlined by this pass refer to each other too many times", maxInlinedObjects, ref.String())
+	}
 
 	// the inlined type can itself refer to objects that have to be inlined
 	typeDef, err := visitor.VisitType(schema, pass.objectsToInline.Get(ref).DeepCopy())
